@@ -43,12 +43,16 @@ type Options struct {
 	// SoftBudget allows (iterative deepening).
 	MinBound   int
 	SoftBudget time.Duration
-	Bound      int           // max total cost (preemptions + deviations) per execution
-	TieCost    int           // cost of taking a non-first ready select arm / non-default data choice (0 or 1)
-	MaxSteps   int           // scheduling points per execution before "livelock" is reported
-	TimerSem   TimerSem      // timer semantics
-	Horizon    time.Duration // model clock never advances past Epoch+Horizon
-	ClockSteps []time.Duration
+	// Shard/Shards split one scenario's search over processes: every shard
+	// runs the cost-0 level, and each subtree rooted at a first deviation
+	// belongs to exactly one shard (by hash of its prefix).
+	Shard, Shards int
+	Bound         int           // max total cost (preemptions + deviations) per execution
+	TieCost       int           // cost of taking a non-first ready select arm / non-default data choice (0 or 1)
+	MaxSteps      int           // scheduling points per execution before "livelock" is reported
+	TimerSem      TimerSem      // timer semantics
+	Horizon       time.Duration // model clock never advances past Epoch+Horizon
+	ClockSteps    []time.Duration
 	// ClockSteps: explicit advances performed by the clock pseudo-thread, in
 	// order. After the script (or with an empty script) the clock advances to
 	// the earliest armed timer deadline ("auto") while AutoClock is set.
